@@ -1703,6 +1703,34 @@ def _inline_defs(leaf, ef, cs=(), mutkept=()):
     return leaf, tuple(ef)
 
 
+def _subst_bool_conds(cs, ef):
+    """a condition that is just a kept boolean `v` (or `!v`) with `v := X` on the path is the
+    condition X (reads of assigned variables are versioned, so X keeps denoting the values at the
+    definition); `true` / `false` definitions decide the condition"""
+    defs = {}
+    for e in ef:
+        m = re.match(r'(v\d+) := (.*)$', e)
+        if m and not _EFFECTFUL.search(m.group(2)) and '|' not in m.group(2):
+            if m.group(1) in defs:
+                defs[m.group(1)] = None       # defined twice on the path: leave alone
+            else:
+                defs[m.group(1)] = m.group(2)
+    out = []
+    for c in cs:
+        neg = c.startswith('!')
+        v = c[1:] if neg else c
+        x = defs.get(v) if re.fullmatch(r'v\d+', v) else None
+        if x is None:
+            out.append(c)
+            continue
+        if x in ('true', 'false'):
+            if (x == 'true') == neg:
+                return None                   # the path's condition is false
+            continue
+        out.append(_neg(x) if neg else x)
+    return out if isinstance(cs, list) else type(cs)(out)
+
+
 def _drop_dead(cs, leaf, ef):
     """remove `v := <pure expr>` definitions of kept lets that nothing on the path reads"""
     ef = list(ef)
@@ -1732,6 +1760,9 @@ def table(e, env=None):
     for cs, leaf, ef in paths(e, env):
         if leaf.startswith('return '):
             leaf = leaf[7:]
+        cs = _subst_bool_conds(cs, ef)
+        if cs is None:
+            continue
         cs = simplify(cs)
         if cs is None:
             continue        # infeasible path
